@@ -178,19 +178,13 @@ impl<SystemType : System> SysCache<SystemType>
             {
                 match system.rename(&cache_path, &target_path)
                 {
-                    Err(error) =>
-                    {
-                        /*  Another rule's thread can take the same cache entry between the check
-                            above and the rename.  Then the file is simply not there anymore. */
-                        if system.is_file(&cache_path)
-                        {
-                            RestoreResult::SystemError(error)
-                        }
-                        else
-                        {
-                            RestoreResult::NotThere
-                        }
-                    },
+                    /*  Another rule's thread can take the same cache entry between the check
+                        above and the rename.  Then the file is simply not there anymore.
+                        (Checking again whether it exists would not do: yet another thread can
+                        have put an identical file back in the meantime.) */
+                    Err(SystemError::RenameFromNonExistent) | Err(SystemError::NotFound) =>
+                        RestoreResult::NotThere,
+                    Err(error) => RestoreResult::SystemError(error),
                     Ok(()) => RestoreResult::Done
                 }
             }
